@@ -180,6 +180,7 @@ def check(case, rec):
                                 "samp" if axis == "sample" else "obs"]))
         r = run()
         got = observe.snapshot(r)
+        observe.check_lookups(r, got, variant + " result")
 
     with_md = variant != "from_hdf5_nomd"
     msg = None
